@@ -85,6 +85,7 @@ FAMILIES = {
     "dispatch": {"module": "Dispatch", "judge": "DispatchTrace"},
     "pipeline": {"module": "MC_PipelineHist", "judge": "PipelineTrace", "by_history": True},
     "genfile": {"module": "GenFile", "judge": "GenFileTrace"},
+    "runtimedoc": {"module": "MC_RuntimeDoc", "judge": "RuntimeDocTrace"},
     "valuelit": {"module": "ValueLit", "judge": "ValueLitTrace"},
     "typelit": {"module": "TypeLit", "judge": "TypeLitTrace"},
     "tracker": {"module": "MC_ImportTracker", "judge": "ImportTrackerTrace"},
@@ -112,6 +113,31 @@ def _distinct(trace, pred, key=lambda r: json.dumps([r.get("case"), r.get("conc"
 
 
 # ----------------------------------------------------------------------------------- C19
+
+def check_C16(ctx):
+    t = ctx.tier
+    res = run_family(ctx, "runtimedoc", "MC_RuntimeDoc", ["RuntimeDoc_gen_%s.cfg" % t], "RuntimeDocTrace", shard=3000, exec_timeout=5400)
+    fails = vlib.collect_failures(res["trace"], res["bad"], "runtimedoc", only_prefix="C16")
+    tr = res["trace"]
+    cov = {
+        "traces_validated_against_impl": len(tr),
+        "evaluations": len(tr),
+        "distinct_nontrivial": _distinct(tr, lambda r: len(r["case"]["doc"]) > 0 or r["case"]["kind"] in ("struct", "genericStruct"), key=lambda r: json.dumps(r["case"], sort_keys=True)),
+        "rule": "RuntimeDoc.tla enumerates type cases: 8 kinds (struct, generic struct, defined scalar / map / slice / func, interface, unexported type) x doc comments made of line classes "
+                "(plain, quotes, backslashes, backquotes, %v / %%, @name, Unicode, interior blank line, line starting with the type name, +tag, @tag lines) x 9 field patterns (exported, "
+                "unexported, anonymous struct type, empty named struct, embedded by value / by pointer, no exported field, named covered struct, two fields) x 7 field doc patterns. Every "
+                "case is real Go source in a generated module; the real runtimedoc generator runs through gengo; the module is compiled with a probe program that calls RuntimeDoc(), "
+                "RuntimeDoc(field) for every field, the embedded struct's field, and an unknown name; RuntimeDocTrace.tla computes the required answers from the recorded source lines. "
+                "Non-trivial = cases with a doc comment or fields.",
+        "exhaustive": True,
+        "samples": [{"case": r["case"], "source": r["conc"]["source"][:400], "type_doc": r["obs"]["type_doc"]} for r in tr[:: max(1, len(tr) // 3)][:3]],
+    }
+    return vlib.finish(ctx, "exploration", cov, [
+        "the Go compiler and the compiled probe program are the oracle for 'compiles' and 'returns'; the specification computes the expected answers from the source lines the harness wrote",
+        "canonical comment text (no leading / trailing blanks); blank doc lines only in the interior of a comment group; field docs do not start with the field's name; embedded fields carry no doc and are exported covered structs",
+        "[[embed]] doc references are not generated",
+    ], fails)
+
 
 def check_C19(ctx):
     t = ctx.tier
@@ -594,6 +620,7 @@ CHECKS = {
     "C13": check_C13,
     "C14": check_C14,
     "C15": check_C15,
+    "C16": check_C16,
     "C19": check_C19,
     "C20": check_C20,
 }
